@@ -12,14 +12,14 @@ def one(d):
     return d, run(d, None)
 
 if __name__ == "__main__":
-    dirs = sorted(glob.glob("/tmp/seed/C*/refout/R*")) + sorted(glob.glob("/tmp/seed/C*/refout2/R*")) + sorted(glob.glob("/tmp/seed/C*/refout3/R*")) + sorted(glob.glob("/tmp/seed/C*/refout4/R*")) + [os.path.dirname(p) for p in sorted(glob.glob(os.path.join(HERE, "seeded", "*", "meta.json"))) if json.load(open(p)).get("kind") == "refactor"]
+    dirs = sorted(glob.glob("/tmp/seed/C*/refout/R*")) + sorted(glob.glob("/tmp/seed/C*/refout2/R*")) + sorted(glob.glob("/tmp/seed/C*/refout3/R*")) + sorted(glob.glob("/tmp/seed/C*/refout4/R*")) + sorted(glob.glob("/tmp/seed/C*/refout5/R*")) + [os.path.dirname(p) for p in sorted(glob.glob(os.path.join(HERE, "seeded", "*", "meta.json"))) if json.load(open(p)).get("kind") == "refactor"]
     dirs = [d for d in dirs if os.path.exists(os.path.join(d, "patch.diff"))]
     if len(sys.argv) > 1:
         dirs = [d for d in dirs if any(a in d for a in sys.argv[1:])]
     fa = ae = 0
     with ProcessPoolExecutor(max_workers=14) as ex:
         for d, res in ex.map(one, dirs):
-            tag = d.replace("/tmp/seed/", "").replace("/refout2/", "-").replace("/refout3/", "-").replace("/refout4/", "-").replace("/refout/", "-")
+            tag = d.replace("/tmp/seed/", "").replace("/refout2/", "-").replace("/refout3/", "-").replace("/refout4/", "-").replace("/refout5/", "-").replace("/refout/", "-")
             if not res:
                 print(f"{tag}: silent")
                 continue
